@@ -620,7 +620,9 @@ class MArr:
         return out
 
     def sum(self, dim=None, **kw):
-        dims = [dim] if isinstance(dim, str) else list(dim)
+        # assumed contract: a sum over several dimensions is one reduction over the product index set,
+        # independent of the order in which the dimensions are listed (canonical order used here)
+        dims = [dim] if isinstance(dim, str) else sorted(dim)
         out = self
         for d in dims:
             if d not in out.dims:
